@@ -33,7 +33,8 @@ func (v *Vue) evalAttributes(ctx VueContext, n *html.Node) (map[string]any, erro
 		// Internal attributes carry already evaluated v-html / v-text content: data, not
 		// template source. Copy them through without interpolating them again.
 		if key == "data-v-html-content" || key == "data-v-text-content" {
-			newAttrs = append(newAttrs, html.Attribute{Key: key, Val: strings.TrimSpace(val)})
+			// (only HTML white space is layout; a no-break space at either end is content)
+			newAttrs = append(newAttrs, html.Attribute{Key: key, Val: strings.Trim(val, " \t\n\r\f")})
 			continue
 		}
 
